@@ -67,6 +67,18 @@ def run_case(c):
             o["rp_twins_low"] = [len(t) for t in rp.twins(min_dist=c["md"])[:n]]
             rp.set_fixed_threshold(float(c["thr"]))
             o["rp_twins_back"] = [sorted(int(v) for v in t) for t in rp.twins(min_dist=c["md"])[:n]]
+            # the network subclass shares the recurrence matrix with its plot part: after re-thresholding through
+            # each setter its twins are those of a fresh plot with that setting
+            from pyunicorn.timeseries import RecurrenceNetwork
+            xs = np.array(c["x"], dtype=float)
+            kw = dict(dim=c["dim"], tau=1, metric="supremum", silence_level=3)
+            rn = RecurrenceNetwork(xs, threshold=0.5, **kw)
+            rn.set_fixed_recurrence_rate(0.3)
+            o["rn_twins_rr"] = [sorted(int(v) for v in t) for t in rn.twins(min_dist=c["md"])[:n]]
+            o["rp_twins_rr"] = [sorted(int(v) for v in t) for t in
+                                RecurrencePlot(xs, recurrence_rate=0.3, **kw).twins(min_dist=c["md"])[:n]]
+            rn.set_fixed_threshold(float(c["thr"]))
+            o["rn_twins_thr"] = [sorted(int(v) for v in t) for t in rn.twins(min_dist=c["md"])[:n]]
     except Exception as ex:
         o["exc"] = type(ex).__name__
     rec["obs"] = o
